@@ -6,6 +6,7 @@ import (
 	"time"
 
 	"go.einride.tech/xsens"
+	"go.einride.tech/xsens/xsensemulator"
 )
 
 func recTerm(u *xsens.UTCTime) string {
@@ -162,6 +163,55 @@ func init() {
 				c.emit("t2r", tup(zs(ts[k].Unix()), zs(int64(ts[k].Nanosecond())), zs(int64(off)), recTerm(&rec), instTerm(back)))
 				c.count("kept-accessor-pointer")
 			}
+		}
+		// end to end: the record is configured into an emulator by a client (go-to-config, set-output-configuration,
+		// go-to-measurement over a synchronous link), encoded and transmitted by the emulator as soon as the client's
+		// go-to-measurement has returned, and read back from the client
+		for i := 0; i < c.pick(25, 250); i++ {
+			first := time.Date(1, 1, 1, 0, 0, 0, 0, time.UTC).Unix()
+			sec := first + c.rng.Int63n(time.Date(9999, 12, 31, 23, 59, 59, 0, time.UTC).Unix()-first)
+			t := time.Unix(sec, c.rng.Int63n(1000000000)).In(time.FixedZone("e", zones[c.rng.Intn(len(zones))]))
+			var u xsens.UTCTime
+			u.UnmarshalTime(t)
+			ce, ee := link(false)
+			emu := xsensemulator.NewEmulator(ee)
+			cl := xsens.NewClient(ce)
+			ctx, cancel := context.WithCancel(context.Background())
+			go func() { _ = emu.Receive(ctx) }()
+			rec := xsens.UTCTime{Ns: 0xffffffff}
+			got := make(chan xsens.UTCTime, 1)
+			go func() {
+				defer func() { _ = recover() }()
+				cfg := xsens.OutputConfiguration{{DataIdentifier: xsens.DataIdentifier{DataType: xsens.DataTypeUTCTime}, OutputFrequency: 100}}
+				if cl.GoToConfig(ctx) != nil || cl.SetOutputConfiguration(ctx, cfg) != nil || cl.GoToMeasurement(ctx) != nil {
+					return
+				}
+				// the acknowledge has been read: the device is in measurement mode; transmit at once
+				go func() {
+					defer func() { _ = recover() }()
+					if pkt, err := emu.MarshalMessage(&u, xsens.DataTypeUTCTime); err == nil {
+						_ = emu.Transmit(xsens.NewMessage(xsens.MessageIdentifierMTData2, pkt))
+					}
+				}()
+				if cl.Receive(ctx) != nil {
+					return
+				}
+				for steps := 0; steps < 16 && cl.ScanMeasurementData(); steps++ {
+				}
+				got <- *cl.UTCTime()
+			}()
+			select {
+			case rec = <-got:
+			case <-time.After(2 * time.Second):
+				c.count("end-to-end-timeouts")
+			}
+			cancel()
+			_ = ce.Close()
+			_ = ee.Close()
+			back := rec.Time()
+			_, off := t.Zone()
+			c.emit("t2r", tup(zs(t.Unix()), zs(int64(t.Nanosecond())), zs(int64(off)), recTerm(&rec), instTerm(back)))
+			c.count("end-to-end-through-emulator")
 		}
 		lo := time.Date(1, 1, 1, 0, 0, 0, 0, time.UTC).Unix()
 		hi := time.Date(9999, 12, 31, 23, 59, 59, 0, time.UTC).Unix()
